@@ -153,7 +153,7 @@ def run(ctx):
                 "operands compared as UTF-16 code units. distinct non-trivial = distinct (character-kind set, length class, byte-length/64)")
     ctx.assumptions = ["comparison in UTF-16 code units (surrogatepass): the decoder may legitimately join a surrogate pair into one str character",
                        "MUTF-8 decoding itself is the third-party mutf8 extension; a defect there would be reported against androguard's use of it"]
-    n = 300 if ctx.quick else 40000
+    n = 300 if ctx.quick else 160000
     per = n // 16 + 1
     ctx.run_shards(MOD, "shard", [[i, per] for i in range(16)], timeout=3000)
     ctx.require_counter("strings_compared", 1000)
